@@ -139,6 +139,7 @@ def measure_epa(rid, A, B, lift, clsA, clsB):
     smooth = A.spec["kind"] in SMOOTH or B.spec["kind"] in SMOOTH or bool(A.margin) or bool(B.margin)
     pp = polytope_pen(A, B)
     rec = base_rec(rid, "epa", pp, smooth)
+    rec["general"] = bool(getattr(A, "general", False) or getattr(B, "general", False))
     try:
         with NW.time_limit(30.0):
             ca, cb = A.build(lift, clsA), B.build(lift, clsB)
@@ -193,7 +194,7 @@ def base_rec(rid, algo, pp, smooth):
     rec = {"id": rid, "kind": "pen", "algo": algo, "exact": pp is not None, "exc": "none", "smooth": bool(smooth), "judged": False,
            "VA": [[0, 0, 0]], "VB": [[0, 0, 0]], "fn": [0, 0, 1], "fc": 0, "success": False, "hit": False, "deep": False,
            "depthErr": 0, "below": 0, "residual": 0, "gap": 0, "posA": 0, "posB": 0, "unit": 0, "depthNeg": False, "simplexRows": 4, "coincident": False, "prevChanged": False,
-           "infl": False, "xn": [0, 0, 0], "W": 1, "wa": [1], "wb": [1], "rA": 0, "rB": 0, "G": 1}
+           "infl": False, "xn": [0, 0, 0], "W": 1, "wa": [1], "wb": [1], "rA": 0, "rB": 0, "G": 1, "general": False}
     if pp:
         rec.update({"VA": pp[3], "VB": pp[4], "fn": pp[1], "fc": pp[2]})
     return rec
@@ -304,13 +305,16 @@ def gen(tier, seed, algo):
                          "lift": [lift[0], lift[1].tolist(), lift[2].tolist()], "family": "tiny-inflated"}
     # skinny and flat polytopes in general relative orientation, overlapping: the portal discovery of MPR takes its rarely used
     # replacement branches there (a rod through a plate, two rods, a triangle / segment hull through a box)
-    skinny = [{"kind": "box", "a": 16, "b": 2, "c": 2}, {"kind": "box", "a": 12, "b": 12, "c": 2}, {"kind": "box", "a": 2, "b": 2, "c": 20},
-              {"kind": "hull", "V": [[0, 0, 0], [8, 0, 0], [0, 6, 0]]}, {"kind": "hull", "V": [[0, 0, 0], [10, 0, 0]]},
+    skinny = [{"kind": "box", "a": 16, "b": 0.2, "c": 0.2}, {"kind": "box", "a": 10, "b": 10, "c": 0.2}, {"kind": "box", "a": 0.2, "b": 0.2, "c": 20},
+              {"kind": "box", "a": 6, "b": 12, "c": 0.1}, {"kind": "box", "a": 16, "b": 2, "c": 2},
+              {"kind": "hull", "V": [[0, 0, 0], [8, 0, 0], [0, 6, 0]]}, {"kind": "hull", "V": [[-5, 0, 0], [5, 0, 0]]},
               {"kind": "hull", "V": [[0, 0, 0], [12, 0, 0], [0, 2, 0], [0, 0, 2]]}, {"kind": "box", "a": 4, "b": 4, "c": 4}]
-    for i in range(220 if tier == "quick" else 5000):
-        A = NW.Body(rng.choice(skinny), np.eye(3, dtype=int), [rng.uniform(-2, 2) for _ in range(3)], 0, None, R=S.random_rotation(rng))
-        B0 = NW.Body(rng.choice(skinny), np.eye(3, dtype=int), [rng.uniform(-2, 2) for _ in range(3)], 0, None, R=S.random_rotation(rng))
-        B, _ = NW.graze(A, B0, rng, 0.25, ks=(-1, -2, -4))
+    for i in range(260 if tier == "quick" else 6000):
+        c = np.array([rng.uniform(-2, 2) for _ in range(3)])
+        # piercing placement: the centres are close, the orientations independent
+        A = NW.Body(rng.choice(skinny), np.eye(3, dtype=int), c, 0, None, R=S.random_rotation(rng))
+        B = NW.Body(rng.choice(skinny), np.eye(3, dtype=int), c + np.array([rng.uniform(-1.2, 1.2) for _ in range(3)]), 0, None,
+                    R=S.random_rotation(rng))
         for X, Y in ((A, B), (B, A)):
             n += 1
             rid = f"e{n}"
@@ -331,6 +335,14 @@ def gen(tier, seed, algo):
         pinned = [(NW.Body(OCT, [[0, 0, -1], [0, -1, 0], [-1, 0, 0]], [0, -2, 3]), NW.Body({"kind": "box", "a": 8, "b": 2, "c": 2}, [[0, 1, 0], [0, 0, 1], [1, 0, 0]], [1, 1, -1]), "MeshGraph", "Box"),
                   (NW.Body({"kind": "cylinder", "r": 3, "h": 2}, [[0, 0, 1], [1, 0, 0], [0, 1, 0]], [-3, 3, 3]), NW.Body({"kind": "sphere", "r": 2}, [[0, 0, 1], [1, 0, 0], [0, 1, 0]], [-3, 3, 3], 2), "Cylinder", "Sphere"),
                   (NW.Body({"kind": "disk", "r": 3}, [[1, 0, 0], [0, -1, 0], [0, 0, -1]], [1, -3, -2]), NW.Body({"kind": "cylinder", "r": 1, "h": 8}, [[0, 1, 0], [1, 0, 0], [0, 0, -1]], [3, -3, 0], 2), "Disk", "Cylinder")]
+    if algo == "epa":
+        RA = [[0.027859613933053584, 0.9557074755033577, 0.2929966948252156], [0.050351140263472705, -0.2940800626210388, 0.9544536025616825],
+              [0.9983429293512673, -0.011837991206502252, -0.056313918159949405]]
+        RB = [[-0.6487458944889415, 0.3689167996631424, -0.665604356438604], [0.7173270969567134, 0.004394878892104992, -0.6967227002266957],
+              [-0.25410745828369025, -0.9294520320951635, -0.26748517655895254]]
+        pinned.append((NW.Body({"kind": "box", "a": 4, "b": 4, "c": 4}, np.eye(3, dtype=int), [0.07439738817376806, -1.5806603281462928, 0.4506200896625163], 0, None, R=RA),
+                       NW.Body({"kind": "box", "a": 16, "b": 2, "c": 2}, np.eye(3, dtype=int), [-0.7544579391510768, -0.6988587308722798, 0.10524843354558888], 0, None, R=RB),
+                       "Box", "Box"))
     for X, Y, clsX, clsY in pinned:
         n += 1
         rid = f"e{n}"
@@ -364,6 +376,9 @@ def run_algo(pid, algo, tier, seed):
         elif "ZONE_IncompleteSimplex" in clauses:
             clauses = clauses - {"ZONE_IncompleteSimplex"}
             key = "epa:incomplete-gjk-simplex"
+        elif "ZONE_CapacityGeneral" in clauses:
+            clauses = clauses - {"ZONE_CapacityGeneral"}
+            key = "epa:capacity-general-orientation"
         else:
             key = f"{algo}:{m['clsA']}-{m['clsB']}:{'+'.join(sorted(clauses))}:{chash([m['A'], m['B'], m['lift']])}"
         res.violation(key, "+".join(sorted(clauses)), f"{algo}({m['clsA']} {m['A']}, {m['clsB']} {m['B']}) lift_s={m['lift'][0]:.4g} " +
